@@ -128,8 +128,11 @@ theorem loadUnit_bits (u : BitField.USize) (isU : Bool) (x : BitVec u.bits) (i :
 theorem loadUnit_high (u : BitField.USize) (isU : Bool) (x : BitVec u.bits) (hu : u.bits < 32) (i : Nat) (h32 : 32 ≤ i) :
     (loadUnit u isU x).getLsbD i = false := by
   cases u <;> cases isU <;> simp [USize.bits, USize.bytes] at hu <;>
-    simp only [loadUnit, BitVec.getLsbD_setWidth] <;>
+    simp only [loadUnit] <;>
     (have : ¬ i < 32 := by omega
-     simp [this])
+     simp [this]
+     try (intro _
+          apply BitVec.getLsbD_of_ge
+          first | omega | (simp only [USize.bits, USize.bytes]; omega)))
 
 end ChibiVerif.C04X86
